@@ -155,6 +155,14 @@ class Pool:
         self.intern = {}
         self.entries = {}
         rng = random.Random(seed * 7919 + 13)
+        try:
+            self._build(rng, p8file, Game)
+        except BaseException:
+            fsx.rm_sandbox(self.dir)
+            raise
+        self.n_known = len(self.intern)
+
+    def _build(self, rng, p8file, Game):
         with fsx.quiet():
             self.empty = self._ids(_contents(Game.make_empty_game()))
             self.empty_version = Game.make_empty_game().version
@@ -188,7 +196,6 @@ class Pool:
                     err = _err(e)
                 self.entries[n] = {'kind': 'garbage', 'err': err}
             self.entries['notes.txt'] = {'kind': 'other'}
-        self.n_known = len(self.intern)
 
     def path(self, name):
         return os.path.join(self.dir, name)
